@@ -987,6 +987,7 @@ async fn run_async(sc: &Scenario, roots: Vec<PathBuf>) -> Trace {
         .chain(sc.puts.iter().map(|p| p.at_ms))
         .max()
         .unwrap_or(0);
+    'run: loop {
     loop {
         tokio::time::sleep(Duration::from_millis(100)).await;
         let t = now_ms(t0);
@@ -999,13 +1000,18 @@ async fn run_async(sc: &Scenario, roots: Vec<PathBuf>) -> Trace {
         }
         if sc.stop_when_quiet && t > last_scheduled + 200 && g.pending_events == 0 && t >= g.last_link_activity + 2000 {
             // every transaction that ever showed up must have reported Terminated
+            // (a report of a live state at or after the last Terminated report is a later instance of the same id)
             let mut started: HashMap<(usize, TransactionID), bool> = HashMap::new();
+            let mut last_term: HashMap<(usize, TransactionID), u64> = HashMap::new();
             for r in &g.trace.inds {
                 let id = ind_id(&r.ind);
                 let e = started.entry((r.entity, id)).or_insert(false);
                 if let Indication::Report(rep) = &r.ind {
                     if rep.state == TransactionState::Terminated {
                         *e = true;
+                        last_term.insert((r.entity, id), r.t);
+                    } else if last_term.get(&(r.entity, id)).map(|lt| r.t >= *lt).unwrap_or(false) {
+                        *e = false;
                     }
                 }
             }
@@ -1049,6 +1055,18 @@ async fn run_async(sc: &Scenario, roots: Vec<PathBuf>) -> Trace {
             alive: report.is_some(),
             report,
         });
+    }
+    // the quiet-stop heuristic can be fooled by a second transaction with the same id (started by a straggler in the
+    // millisecond in which the first one ended): if the daemon still answers for something, keep running
+    {
+        let mut g = shared.lock().unwrap();
+        let t = now_ms(t0);
+        if sc.stop_when_quiet && t < sc.horizon_ms && !g.trace.budget_exceeded && g.trace.probes.iter().any(|p| p.alive) {
+            g.trace.probes.clear();
+            continue 'run;
+        }
+    }
+    break;
     }
     // health check: heal the link, each present daemon must still serve a fresh Put
     if sc.health_check {
